@@ -7,6 +7,7 @@ import (
 
 	"verif/shim/vnet"
 	"verif/shim/vsched"
+	"verif/shim/vsync"
 	"verif/world"
 )
 
@@ -51,6 +52,11 @@ func c08(p Params) func() {
 				nestedCmd = ctx.Session().Call(hBName, "n", &nestedRes)
 			case "push":
 				ctx.Session().Push(hPBName, "p")
+			case "closenotify":
+				// the handler finishes its work only when it learns that its session is being closed
+				ch := ctx.Session().CloseNotify()
+				vsync.AwaitRecv(ch)
+				<-ch
 			}
 			r := "A:" + *arg
 			world.Event("hA_exit")
